@@ -185,3 +185,4 @@ Definition builderin_ok (c : bytes * list (list Z) * list Z * list (Z * Z * byte
     && (fcol =? gcolumn) && Bool.eqb ign gign
   end.
 Definition check_builderin := mismatches builderin_ok.
+
